@@ -62,6 +62,14 @@ def discovery_set(prog: Program) -> Tuple[FuncInfo, str]:
     return func, candidates[0]
 
 
+def _first_argument(callee: FuncInfo, call: ast.Call) -> Optional[ast.AST]:
+    """what the call passes for the callee's first parameter (after self / cls), by position or by keyword"""
+    first = next((a.arg for a in callee.node.args.args if a.arg not in ("self", "cls")), None)  # type: ignore[attr-defined]
+    if first is None:
+        return None
+    return Program.bind_args(callee, call, skip_self=callee.kind in ("instance", "class")).get(first)
+
+
 def r19a(ctx: Context) -> None:
     prog = ctx.prog
     rule = ctx.rule("R19a", "files are collected in a set and returned through sorted()", 2)
@@ -144,7 +152,7 @@ def r19b(ctx: Context) -> None:
                         for condition in generator.ifs:
                             for call in [c for c in ast.walk(condition) if isinstance(c, ast.Call)]:
                                 site = site_for(prog, func, call)
-                                if site and eligible in site.targets and call.args and names_read(call.args[0]) & element_names:
+                                if site and eligible in site.targets and _first_argument(eligible, call) is not None and names_read(_first_argument(eligible, call)) & element_names:
                                     filtered = True
                 if filtered:
                     rule.ok(akey, "every element of the bulk add passed the eligibility predicate (comprehension filter)")
@@ -163,7 +171,7 @@ def r19b(ctx: Context) -> None:
                 if not polarity or not isinstance(test, ast.Call):
                     continue
                 site = site_for(prog, func, test)
-                if site and eligible in site.targets and test.args and names_read(test.args[0]) & derived:
+                if site and eligible in site.targets and _first_argument(eligible, test) is not None and names_read(_first_argument(eligible, test)) & derived:
                     guarded = True
             if guarded:
                 rule.ok(akey, "control-dependent on the eligibility predicate for the same path")
@@ -275,7 +283,7 @@ def r19d_listing(ctx: Context) -> None:
         key = func_key(driver) + ": listing after error"
         guards = [norm(t) for t, _ in guards_of(driver.node, site.node)]
         arg_reads = set()
-        for arg in site.node.args:
+        for arg in list(site.node.args) + [k.value for k in site.node.keywords]:
             arg_reads |= names_read(arg)
         if flag in arg_reads or any(flag in g for g in guards):
             rule.ok(key, "listing arguments / guard depend on the error flag")
